@@ -37,6 +37,11 @@ CLAIMS = {
         note="PARTIAL proof: the unbounded theorem covers the library layer only; for derived types (structs/enums x representations x attributes x generics) membership is decided by Coq per generated case (sampling: ~500 values quick, ~5000 thorough), not proved for all definitions. Trusted: Coq kernel/vm_compute; the reading of TypeScript types in Spec/TsSem.v; Spec/Serde.v (pinned against real serde_json each run); the Python JSON-to-Coq converter. Known classes: optional without skip_serializing_if, newtype struct with a skipped field, textual merge (known_findings.json); non-finite floats and user-asserted bindings (`as`, `type`) are outside the generated fragment.",
         technique="Coq proof (library layer, induction over the type grammar) + membership decided by Coq (vm_compute of memberb) on real serde_json output of a compiled corpus + model/implementation text correspondence + serde model correspondence",
         ref="DESIGN.md section 5 C01, section 10"),
+    "C02": dict(
+        text="Coq theorems, for every definition and all type arguments, that the binding corresponds exactly to the item (the structural half of the property): the union has one arm per non-skipped variant in source order and nothing else (C02_union_arms_are_the_live_variants), tuples have one element per non-skipped field (C02_tuple_length), `?` appears only for optional on the field or optional_fields with an Option type (C02_optional_mark), property names are serde's names (C02_property_key with C09), empty shapes are null / never[] / Record<string, never> / never (C02_empty_shapes, C02_empty_enum_is_never). Acceptance by serde's Deserialize is decided on every run: Coq enumerates inhabitants of the REAL declared type of every corpus type (Spec/TsSem.v witnesses on the independently parsed real text: every union arm, optional properties present/absent, arrays of length 0..2, index-signature keys, leaf values every Rust leaf can represent), re-checks each with memberb, the real serde_json::from_str::<T> must accept each, and the re-serialised value must again be a member.",
+        note="PARTIAL proof: no model of serde's Deserialize is verified; `every inhabitant deserializes` is decided by the real serde on Coq-enumerated witnesses (sampling by structure, ~1100 witnesses quick), the theorems cover the structural correspondence only. Soundness of the witness enumeration is re-checked per witness by memberb (not yet proved for all types). Known classes: 128-bit integers behind serde's buffered deserialisation, newtype struct with skipped field, optional without skip_serializing_if (re-serialisation). Refined-string leaves (IpAddr, Uuid, ..) are outside the generated fragment.",
+        technique="Coq proof (structural correspondence of the derive layer) + Coq-enumerated inhabitants of the real declared types fed to the real serde_json::from_str, re-serialisation re-checked by the Coq membership predicate",
+        ref="DESIGN.md section 5 C02, section 10"),
     "C03": dict(
         text="Coq theorems, for all environments of definitions, attribute combinations, nesting depths and type arguments: every type name that a generated declaration / inline form / flattened form refers to is the identifier of an exportable type handed to the visitor by the generated visit_dependencies() (C03_used_names_are_dependencies, C03_inline_names_are_dependencies, C03_name_refs: induction over the type grammar, case analysis of the derive layer, induction on generator fuel with gen and deps side by side); and for ANY dependency list the import statements generate_imports builds are sound (each imported name is a non-self dependency that is not in the same file, under exactly the specifier import_path computes for its file), name every name in one place only, and are complete up to equal names (C03_imports). With C08 (the specifier resolves to that file) and C11 (export_all writes the file of every visited exportable type). Tied to the code on every run: model dependencies()/export_to_string() vs real byte for byte on the corpus, and every exportable corpus type is exported with export_all_to into a real directory whose every file is read back by an independent reader: used names = imported + declared + parameters, every import resolves to a written file declaring the name, no self-import, no duplicates, no unused import.",
         note="Trusted: Coq kernel/vm_compute; transcription of deps.rs call sites and of generate_imports (pinned by the corpus correspondence); the Python reader of real files (tools/tsmini.py). Partial: `imports nothing it does not use` is NOT proved (it is false: known class inlined_generic_default) — it is decided by the oracle on the real trees only; the composition of the dependency-level and import-level theorems across the dummy renaming of WithoutGenerics is by correspondence. `type = \"..\"` overrides are opaque.",
